@@ -162,8 +162,9 @@ def _one_shot_case(rng, word, thumb, mode, te, regs, mpu, sct_extra=None):
     G.set_data(devices[0], 0, low)
     G.set_data(devices[1], 0, code)
     cfg = {'arch_version': 7, 'have_security_ext': False, 'have_virt_ext': False, 'have_lpae': False, 'memory_system_architecture': 'PMSA', 'number_of_mpu_regions': 12}
-    st = P.main_state(rng, cfg, mode, thumb, te, dict(G.mpu_sys(mpu)))
-    st['sys']['sctlr'] = G.sctlr_value(m=1, a=0, u=1, te=te, v=0, br=0, **(sct_extra or {}))
+    ee = int(rng.random() < 0.3)
+    st = P.main_state(rng, cfg, mode, thumb, te, dict(G.mpu_sys(mpu)), e=int(rng.random() < 0.25), ee=ee)
+    st['sys']['sctlr'] = G.sctlr_value(m=1, a=0, u=1, te=te, v=0, br=0, ee=ee, **(sct_extra or {}))
     for i, v in enumerate(regs):
         st['R'][('R%dusr' % i) if i < 13 else ('SPusr', 'LRusr')[i - 13]] = v
     if mode == 'svc':
@@ -590,7 +591,7 @@ def gen_align(rng):
     mpu = [(0, 0, 0)] * 12
     mpu[0] = (1 | 31 << 1, 0, 3 << 8)
     core, meta = _one_shot_case(rng, word, thumb, mode, te, regs, mpu, {})
-    core['regs']['sys']['sctlr'] = G.sctlr_value(m=rng.getrandbits(1), a=a_bit, u=1, te=te, v=0, br=1)
+    core['regs']['sys']['sctlr'] = G.sctlr_value(m=rng.getrandbits(1), a=a_bit, u=1, te=te, v=0, br=1, ee=(core['regs']['sys']['sctlr'] >> 25) & 1)
     return {'scenario': 'align', 'cores': [core], 'meta': meta, 'word': word, 'kind': kind, 'first': first, 'size': size, 'rn': rn, 'wb': wb, 'write': kind in ('str', 'strh', 'strd', 'stm', 'push'),
             'events': [], 'max_ticks': 200}
 
@@ -639,7 +640,7 @@ def gen_revoke(rng):
         mpu[0] = (1 | 31 << 1, 0, 3 << 8)
         mpu[DREG] = (0 | 7 << 1, P.DBASE, rng.choice([0, 0, 5, 6]) << 8)          # the main program's data page (256 B), initially not enabled
         core, meta = build_program_case(rng, allow=('alu', 'mem', 'mem', 'stack', 'loop', 'cond', 'it', 'multi'), extra_sys=dict(G.mpu_sys(mpu)), rec_data=False)
-        core['regs']['sys']['sctlr'] = G.sctlr_value(m=1, a=0, u=1, te=meta['te'], v=0, br=1)
+        core['regs']['sys']['sctlr'] = G.sctlr_value(m=1, a=0, u=1, te=meta['te'], v=0, br=1, ee=meta.get('ee', 0))
         n = fault_free_ticks(core, meta)
         if n is not None:
             break
